@@ -606,7 +606,7 @@ func AnyDecompress(alg string, p []byte) ([]byte, error) {
 	switch alg {
 	case "", "identity":
 		return p, nil
-	case "gzip":
+	case "gzip", "gz2": // gz2: gzip registered under a second name (C09 shared-option)
 		return Gunzip(p)
 	case "alg1":
 		return XorDecode(0xA1, p)
